@@ -1,10 +1,300 @@
 ------------------------------ MODULE DateTime ------------------------------
-(* Datetime items (stub; the rules are added with C17/C18).                 *)
-EXTENDS Integers, Sequences
+(* The five SQL/JSON datetime types of path/types and the rules of the      *)
+(* datetime item methods (properties C17, C18).                             *)
+(*                                                                          *)
+(* A datetime item is                                                       *)
+(*   [t |-> "dt", ty |-> "date" | "time" | "timetz" | "ts" | "tstz",        *)
+(*    y, mo, d, h, mi, sec, ns, off, txt]                                   *)
+(* with the civil fields as the value prints them (date: time fields 0;     *)
+(* time / timetz: y = 0, mo = 1, d = 1), off the UTC offset in seconds      *)
+(* (0 for the zone-less types) and txt the ISO-8601 text (bytes) String()   *)
+(* prints -- every value this module builds carries txt = Format(value), so *)
+(* that equality with a value the implementation returned also checks its   *)
+(* printed form.                                                            *)
+(*                                                                          *)
+(* Zones: "UTC", fixed offsets "+HH:MM" / "-HH:MM", and "America/New_York"  *)
+(* (US rule since 2007: daylight time from the second Sunday of March 02:00 *)
+(* to the first Sunday of November 02:00).  Local times inside a transition *)
+(* gap or overlap are not decided ("opaque").                               *)
+EXTENDS Integers, Sequences, BigNum
+
+Dig(n) == 48 + n
+Two(n) == <<Dig(n \div 10), Dig(n % 10)>>
+Four(n) == <<Dig(n \div 1000), Dig((n \div 100) % 10), Dig((n \div 10) % 10), Dig(n % 10)>>
+
+IsLeap(y) == (y % 4 = 0 /\ y % 100 # 0) \/ y % 400 = 0
+DaysInMonth(y, m) ==
+  IF m = 2 THEN (IF IsLeap(y) THEN 29 ELSE 28) ELSE IF m \in {4, 6, 9, 11} THEN 30 ELSE 31
+DaysBeforeYear(y) == LET p == y - 1 IN 365 * p + p \div 4 - p \div 100 + p \div 400
+RECURSIVE DaysBeforeMonth(_, _)
+DaysBeforeMonth(y, m) == IF m = 1 THEN 0 ELSE DaysBeforeMonth(y, m - 1) + DaysInMonth(y, m - 1)
+(* days since 0001-01-01 (day 0 is a Monday) *)
+DayNumber(y, m, d) == DaysBeforeYear(y) + DaysBeforeMonth(y, m) + (d - 1)
+Weekday(n) == n % 7          \* 0 = Monday ... 6 = Sunday
+
+RECURSIVE YearOfDay(_, _), MonthOfDay(_, _, _)
+YearOfDay(n, y) == IF DaysBeforeYear(y + 1) > n THEN y ELSE YearOfDay(n, y + 1)
+MonthOfDay(y, rem, m) == IF rem < DaysInMonth(y, m) THEN m ELSE MonthOfDay(y, rem - DaysInMonth(y, m), m + 1)
+CivilOfDay(n) ==
+  LET y0 == (n \div 366) + 1          \* never above the true year
+      y  == YearOfDay(n, y0)
+      r  == n - DaysBeforeYear(y)
+      m  == MonthOfDay(y, r, 1)
+  IN [y |-> y, mo |-> m, d |-> r - DaysBeforeMonth(y, m) + 1]
+
+(* --- printing ------------------------------------------------------------ *)
+RECURSIVE TrimZeros(_)
+TrimZeros(s) == IF Len(s) > 0 /\ s[Len(s)] = 48 THEN TrimZeros(SubSeq(s, 1, Len(s) - 1)) ELSE s
+Nine(ns) ==      \* 9 digits of the nanoseconds
+  << Dig(ns \div 100000000), Dig((ns \div 10000000) % 10), Dig((ns \div 1000000) % 10), Dig((ns \div 100000) % 10),
+     Dig((ns \div 10000) % 10), Dig((ns \div 1000) % 10), Dig((ns \div 100) % 10), Dig((ns \div 10) % 10), Dig(ns % 10) >>
+Frac(ns) == IF ns = 0 THEN <<>> ELSE <<46>> \o TrimZeros(Nine(ns))
+DateText(v) == Four(v.y) \o <<45>> \o Two(v.mo) \o <<45>> \o Two(v.d)
+ClockText(v) == Two(v.h) \o <<58>> \o Two(v.mi) \o <<58>> \o Two(v.sec) \o Frac(v.ns)
+OffText(off) ==
+  LET a == IF off < 0 THEN -off ELSE off
+  IN <<IF off < 0 THEN 45 ELSE 43>> \o Two(a \div 3600) \o <<58>> \o Two((a \div 60) % 60)
+     \o (IF a % 60 = 0 THEN <<>> ELSE <<58>> \o Two(a % 60))     \* offsets with seconds: outside the property's domain
+Format(v) ==
+  CASE v.ty = "date"   -> DateText(v)
+    [] v.ty = "time"   -> ClockText(v)
+    [] v.ty = "timetz" -> ClockText(v) \o OffText(v.off)
+    [] v.ty = "ts"     -> DateText(v) \o <<84>> \o ClockText(v)
+    [] v.ty = "tstz"   -> DateText(v) \o <<84>> \o ClockText(v) \o OffText(v.off)
+
+Mk(ty, y, mo, d, h, mi, sec, ns, off) ==
+  LET v == [t |-> "dt", ty |-> ty, y |-> y, mo |-> mo, d |-> d, h |-> h, mi |-> mi, sec |-> sec, ns |-> ns, off |-> off]
+  IN [t |-> "dt", ty |-> ty, y |-> y, mo |-> mo, d |-> d, h |-> h, mi |-> mi, sec |-> sec, ns |-> ns, off |-> off,
+      txt |-> Format(v)]
+MkDate(y, mo, d) == Mk("date", y, mo, d, 0, 0, 0, 0, 0)
+MkTime(h, mi, sec, ns) == Mk("time", 0, 1, 1, h, mi, sec, ns, 0)
+MkTimeTZ(h, mi, sec, ns, off) == Mk("timetz", 0, 1, 1, h, mi, sec, ns, off)
+MkTS(y, mo, d, h, mi, sec, ns) == Mk("ts", y, mo, d, h, mi, sec, ns, 0)
+MkTSTZ(y, mo, d, h, mi, sec, ns, off) == Mk("tstz", y, mo, d, h, mi, sec, ns, off)
+
 DTTypeName(v) ==
   CASE v.ty = "date" -> "date" [] v.ty = "time" -> "time without time zone"
     [] v.ty = "timetz" -> "time with time zone" [] v.ty = "ts" -> "timestamp without time zone"
     [] v.ty = "tstz" -> "timestamp with time zone"
-DTCompare(l, r, useTZ, zone) == [err |-> "opaque", comparable |-> FALSE, cmp |-> 0]
-DTMethod(n, v, useTZ, zone) == [ok |-> FALSE, err |-> "opaque"]
+
+(* --- arithmetic on (day, second of day) ---------------------------------- *)
+SecOfDay(v) == v.h * 3600 + v.mi * 60 + v.sec
+FloorDiv(a, b) == IF a >= 0 THEN a \div b ELSE -(((-a) + b - 1) \div b)
+(* shift civil fields by delta seconds: [day, sod] normalised *)
+Shift(day, sod, delta) ==
+  LET s == sod + delta  q == FloorDiv(s, 86400)
+  IN [day |-> day + q, sod |-> s - q * 86400]
+(* the UTC instant of a zone-aware value as [day, sod, ns] *)
+Instant(v) ==
+  LET p == Shift(DayNumber(v.y, v.mo, v.d), SecOfDay(v), -v.off) IN [day |-> p.day, sod |-> p.sod, ns |-> v.ns]
+CmpInt(a, b) == IF a < b THEN -1 ELSE IF a > b THEN 1 ELSE 0
+CmpTriple(a, b) ==
+  IF a.day # b.day THEN CmpInt(a.day, b.day) ELSE IF a.sod # b.sod THEN CmpInt(a.sod, b.sod) ELSE CmpInt(a.ns, b.ns)
+FieldsTriple(v) == [day |-> DayNumber(v.y, v.mo, v.d), sod |-> SecOfDay(v), ns |-> v.ns]
+OfDaySod(ty, day, sod, ns, off) ==
+  LET c == CivilOfDay(day)
+  IN Mk(ty, c.y, c.mo, c.d, sod \div 3600, (sod \div 60) % 60, sod % 60, ns, off)
+
+(* --- zones ---------------------------------------------------------------- *)
+OPQ == 99999999      \* "not decided" as an offset
+DigitAt(s, i) == IF SubSeq(s, i, i) = "0" THEN 0 ELSE IF SubSeq(s, i, i) = "1" THEN 1 ELSE IF SubSeq(s, i, i) = "2" THEN 2
+  ELSE IF SubSeq(s, i, i) = "3" THEN 3 ELSE IF SubSeq(s, i, i) = "4" THEN 4 ELSE IF SubSeq(s, i, i) = "5" THEN 5
+  ELSE IF SubSeq(s, i, i) = "6" THEN 6 ELSE IF SubSeq(s, i, i) = "7" THEN 7 ELSE IF SubSeq(s, i, i) = "8" THEN 8 ELSE 9
+FixedOffset(zone) ==      \* "+HH:MM" / "-HH:MM"
+  LET a == (DigitAt(zone, 2) * 10 + DigitAt(zone, 3)) * 3600 + (DigitAt(zone, 5) * 10 + DigitAt(zone, 6)) * 60
+  IN IF SubSeq(zone, 1, 1) = "-" THEN -a ELSE a
+IsFixed(zone) == zone = "UTC" \/ SubSeq(zone, 1, 1) \in {"+", "-"}
+
+(* n-th Sunday (n >= 1) of a month as a day number *)
+NthSunday(y, m, n) ==
+  LET first == DayNumber(y, m, 1)
+      toSun == (6 - Weekday(first) + 7) % 7
+  IN first + toSun + 7 * (n - 1)
+(* America/New_York: UTC instants of the two transitions of year y, as [day, sod] *)
+NYStart(y) == [day |-> NthSunday(y, 3, 2), sod |-> 7 * 3600]     \* 02:00 EST = 07:00 UTC
+NYEnd(y)   == [day |-> NthSunday(y, 11, 1), sod |-> 6 * 3600]    \* 02:00 EDT = 06:00 UTC
+Before(a, b) == a.day < b.day \/ (a.day = b.day /\ a.sod < b.sod)
+NYOffsetAtInstant(day, sod) ==
+  LET y == CivilOfDay(day).y  p == [day |-> day, sod |-> sod]
+  IN IF y < 2007 THEN OPQ
+     ELSE IF ~Before(p, NYStart(y)) /\ Before(p, NYEnd(y)) THEN -4 * 3600 ELSE -5 * 3600
+(* offset for a LOCAL wall clock time; OPQ inside the gap or the overlap *)
+NYOffsetAtLocal(day, sod) ==
+  LET y == CivilOfDay(day).y  p == [day |-> day, sod |-> sod]
+      s == [day |-> NthSunday(y, 3, 2), sod |-> 2 * 3600]     \* local 02:00: gap until 03:00
+      e == [day |-> NthSunday(y, 11, 1), sod |-> 1 * 3600]    \* local 01:00-02:00 happens twice
+  IN IF y < 2007 THEN OPQ
+     ELSE IF p.day = s.day /\ p.sod >= 2 * 3600 /\ p.sod < 3 * 3600 THEN OPQ
+     ELSE IF p.day = e.day /\ p.sod >= 1 * 3600 /\ p.sod < 2 * 3600 THEN OPQ
+     ELSE IF ~Before(p, s) /\ Before(p, [day |-> e.day, sod |-> 2 * 3600]) THEN -4 * 3600 ELSE -5 * 3600
+OffsetAtInstant(zone, day, sod) ==
+  IF zone = "UTC" THEN 0 ELSE IF IsFixed(zone) THEN FixedOffset(zone)
+  ELSE IF zone = "America/New_York" THEN NYOffsetAtInstant(day, sod) ELSE OPQ
+OffsetAtLocal(zone, day, sod) ==
+  IF zone = "UTC" THEN 0 ELSE IF IsFixed(zone) THEN FixedOffset(zone)
+  ELSE IF zone = "America/New_York" THEN NYOffsetAtLocal(day, sod) ELSE OPQ
+
+(* --- parsing the documented ISO-8601 forms -------------------------------- *)
+IsD(b) == b >= 48 /\ b <= 57
+Num2(s, i) == (s[i] - 48) * 10 + (s[i + 1] - 48)
+Num4(s, i) == (s[i] - 48) * 1000 + (s[i + 1] - 48) * 100 + (s[i + 2] - 48) * 10 + (s[i + 3] - 48)
+DigitsAt(s, i, n) == i + n - 1 <= Len(s) /\ \A k \in i..(i + n - 1) : IsD(s[k])
+
+(* YYYY-MM-DD at position i: [ok, y, mo, d] *)
+DateAt(s, i) ==
+  IF ~(DigitsAt(s, i, 4) /\ Len(s) >= i + 9 /\ s[i + 4] = 45 /\ DigitsAt(s, i + 5, 2) /\ s[i + 7] = 45 /\ DigitsAt(s, i + 8, 2))
+  THEN [ok |-> FALSE]
+  ELSE LET y == Num4(s, i)  m == Num2(s, i + 5)  d == Num2(s, i + 8)
+       IN IF y >= 1 /\ m >= 1 /\ m <= 12 /\ d >= 1 /\ d <= DaysInMonth(y, m) THEN [ok |-> TRUE, y |-> y, mo |-> m, d |-> d]
+          ELSE [ok |-> FALSE]
+
+RECURSIVE FracEnd(_, _)
+FracEnd(s, i) == IF i <= Len(s) /\ IsD(s[i]) THEN FracEnd(s, i + 1) ELSE i
+RECURSIVE NsOf(_, _, _, _)
+NsOf(s, i, n, acc) ==          \* first 9 fractional digits, padded
+  IF n = 9 THEN acc ELSE NsOf(s, i + 1, n + 1, acc * 10 + (IF i <= Len(s) /\ IsD(s[i]) THEN s[i] - 48 ELSE 0))
+(* hh:mm:ss[.f...] at i: [ok, h, mi, sec, ns, next] *)
+ClockAt(s, i) ==
+  IF ~(DigitsAt(s, i, 2) /\ Len(s) >= i + 7 /\ s[i + 2] = 58 /\ DigitsAt(s, i + 3, 2) /\ s[i + 5] = 58 /\ DigitsAt(s, i + 6, 2))
+  THEN [ok |-> FALSE]
+  ELSE LET h == Num2(s, i)  m == Num2(s, i + 3)  sc == Num2(s, i + 6)
+           hasF == Len(s) >= i + 9 /\ s[i + 8] = 46 /\ IsD(s[i + 9])
+           fe == IF hasF THEN FracEnd(s, i + 9) ELSE i + 8
+           nd == fe - (i + 9)
+       IN IF h > 23 \/ m > 59 \/ sc > 59 THEN [ok |-> FALSE]
+          ELSE [ok |-> TRUE, h |-> h, mi |-> m, sec |-> sc, next |-> fe,
+                ns |-> IF hasF THEN NsOf(SubSeq(s, i + 9, IF nd > 9 THEN i + 17 ELSE fe - 1), 1, 0, 0) ELSE 0]
+(* zone designator at i to the end: Z | +hh | -hh | +hh:mm | -hh:mm  ->  [ok, off] *)
+ZoneAt(s, i) ==
+  IF i = Len(s) /\ s[i] = 90 THEN [ok |-> "y", off |-> 0]
+  ELSE IF i > Len(s) \/ s[i] \notin {43, 45} \/ ~DigitsAt(s, i + 1, 2) THEN [ok |-> "n"]
+  ELSE LET hh == Num2(s, i + 1)
+           sign == IF s[i] = 45 THEN -1 ELSE 1
+       IN IF Len(s) = i + 2 THEN (IF hh <= 15 THEN [ok |-> "y", off |-> sign * hh * 3600] ELSE [ok |-> "opaque"])
+          ELSE IF Len(s) = i + 5 /\ s[i + 3] = 58 /\ DigitsAt(s, i + 4, 2)
+               THEN LET mm == Num2(s, i + 4)
+                    IN IF hh <= 15 /\ mm <= 59 THEN [ok |-> "y", off |-> sign * (hh * 3600 + mm * 60)] ELSE [ok |-> "opaque"]
+          ELSE [ok |-> "n"]
+
+(* rounding to p fractional digits (p in 0..6), half up, with carry *)
+RECURSIVE Pow10I(_)
+Pow10I(n) == IF n = 0 THEN 1 ELSE 10 * Pow10I(n - 1)
+RoundNs(ns, p) ==        \* [ns, carry]
+  LET unit == Pow10I(9 - p)
+      q == (ns + unit \div 2) \div unit
+      r == q * unit
+  IN IF r >= 1000000000 THEN [ns |-> r - 1000000000, carry |-> 1] ELSE [ns |-> r, carry |-> 0]
+
+(* ParseISO(s, p): p = -1 keeps the digits.  [ok |-> "y", v] | [ok |-> "n"] | [ok |-> "opaque"] *)
+WithPrecision(ty, day, sod, ns, off, p) ==
+  IF p < 0 THEN [day |-> day, sod |-> sod, ns |-> ns]
+  ELSE LET r == RoundNs(ns, p)  sh == Shift(day, sod, r.carry)
+       IN [day |-> sh.day, sod |-> sh.sod, ns |-> r.ns]
+ParseISO(s, p) ==
+  LET d == DateAt(s, 1)
+  IN IF d.ok /\ Len(s) = 10 THEN [ok |-> "y", v |-> MkDate(d.y, d.mo, d.d)]
+     ELSE IF d.ok /\ Len(s) > 10 /\ s[11] \in {84, 32} THEN
+          LET c == ClockAt(s, 12)
+          IN IF ~c.ok THEN [ok |-> "n"]
+             ELSE IF c.next > Len(s) THEN
+                  LET w == WithPrecision("ts", DayNumber(d.y, d.mo, d.d), c.h * 3600 + c.mi * 60 + c.sec, c.ns, 0, p)
+                  IN IF w.day >= DaysBeforeYear(10000) THEN [ok |-> "opaque"] ELSE [ok |-> "y", v |-> OfDaySod("ts", w.day, w.sod, w.ns, 0)]
+             ELSE LET z == ZoneAt(s, c.next)
+                  IN IF z.ok = "opaque" THEN [ok |-> "opaque"] ELSE IF z.ok = "n" THEN [ok |-> "n"]
+                     ELSE LET w == WithPrecision("tstz", DayNumber(d.y, d.mo, d.d), c.h * 3600 + c.mi * 60 + c.sec, c.ns, z.off, p)
+                          IN IF w.day >= DaysBeforeYear(10000) THEN [ok |-> "opaque"]
+                             ELSE [ok |-> "y", v |-> OfDaySod("tstz", w.day, w.sod, w.ns, z.off)]
+     ELSE LET c == ClockAt(s, 1)
+          IN IF ~c.ok THEN [ok |-> "n"]
+             ELSE LET r == IF p < 0 THEN [ns |-> c.ns, carry |-> 0] ELSE RoundNs(c.ns, p)
+                      sod == (c.h * 3600 + c.mi * 60 + c.sec + r.carry) % 86400       \* a time of day wraps
+                  IN IF c.next > Len(s) THEN [ok |-> "y", v |-> MkTime(sod \div 3600, (sod \div 60) % 60, sod % 60, r.ns)]
+                     ELSE LET z == ZoneAt(s, c.next)
+                          IN IF z.ok = "opaque" THEN [ok |-> "opaque"] ELSE IF z.ok = "n" THEN [ok |-> "n"]
+                             ELSE [ok |-> "y", v |-> MkTimeTZ(sod \div 3600, (sod \div 60) % 60, sod % 60, r.ns, z.off)]
+
+(* --- casts ---------------------------------------------------------------- *)
+(* Results: [ok |-> TRUE, v] | [ok |-> FALSE, err |-> "verbose" (format not  *)
+(* recognized) | "hard" (needs WithTZ)] | [ok |-> FALSE, err |-> "opaque"]   *)
+COk(v) == [ok |-> TRUE, v |-> v]
+CErr(e) == [ok |-> FALSE, err |-> e]
+
+(* zone-less wall clock -> zone-aware, in the context zone *)
+ToAware(ty, y, mo, d, h, mi, sec, ns, zone) ==
+  LET off == OffsetAtLocal(zone, DayNumber(y, mo, d), h * 3600 + mi * 60 + sec)
+  IN IF off = OPQ THEN CErr("opaque") ELSE COk(Mk(ty, y, mo, d, h, mi, sec, ns, off))
+(* zone-aware -> fields in the context zone: [ok, day, sod, off] *)
+InZone(v, zone) ==
+  LET i == Instant(v)
+      off == OffsetAtInstant(zone, i.day, i.sod)
+  IN IF off = OPQ THEN [ok |-> FALSE]
+     ELSE LET p == Shift(i.day, i.sod, off) IN [ok |-> TRUE, day |-> p.day, sod |-> p.sod, off |-> off]
+
+Cast(v, to, useTZ, zone) ==
+  LET need(r) == IF useTZ THEN r ELSE CErr("hard")
+  IN
+  CASE v.ty = to -> COk(v)
+    [] v.ty = "date" /\ to = "ts"   -> COk(MkTS(v.y, v.mo, v.d, 0, 0, 0, 0))
+    [] v.ty = "date" /\ to = "tstz" -> need(ToAware("tstz", v.y, v.mo, v.d, 0, 0, 0, 0, zone))
+    [] v.ty = "time" /\ to = "timetz" ->
+         need(IF IsFixed(zone) THEN COk(MkTimeTZ(v.h, v.mi, v.sec, v.ns, OffsetAtLocal(zone, 0, 0))) ELSE CErr("opaque"))
+    [] v.ty = "timetz" /\ to = "time" -> need(COk(MkTime(v.h, v.mi, v.sec, v.ns)))
+    [] v.ty = "ts" /\ to = "date" -> COk(MkDate(v.y, v.mo, v.d))
+    [] v.ty = "ts" /\ to = "time" -> COk(MkTime(v.h, v.mi, v.sec, v.ns))
+    [] v.ty = "ts" /\ to = "tstz" -> need(ToAware("tstz", v.y, v.mo, v.d, v.h, v.mi, v.sec, v.ns, zone))
+    [] v.ty = "tstz" /\ to \in {"date", "time", "ts", "timetz"} ->
+         LET z == InZone(v, zone)
+             c == CivilOfDay(z.day)
+             r == IF ~z.ok THEN CErr("opaque")
+                  ELSE CASE to = "date" -> COk(MkDate(c.y, c.mo, c.d))
+                         [] to = "time" -> COk(MkTime(z.sod \div 3600, (z.sod \div 60) % 60, z.sod % 60, v.ns))
+                         [] to = "ts"   -> COk(OfDaySod("ts", z.day, z.sod, v.ns, 0))
+                         [] to = "timetz" -> COk(MkTimeTZ(z.sod \div 3600, (z.sod \div 60) % 60, z.sod % 60, v.ns, z.off))
+         IN IF to = "timetz" THEN r ELSE need(r)       \* timestamptz -> timetz needs no WithTZ
+    [] OTHER -> CErr("verbose")                         \* "format is not recognized"
+
+(* --- comparison ------------------------------------------------------------ *)
+(* [err, comparable, cmp]; the common type of two comparable values is the  *)
+(* more zone-aware one; zone-less values are interpreted in the context zone *)
+DTCompare(l, r, useTZ, zone) ==
+  LET res(c) == [err |-> "none", comparable |-> TRUE, cmp |-> c]
+      no == [err |-> "none", comparable |-> FALSE, cmp |-> 0]
+      errR(e) == [err |-> e, comparable |-> FALSE, cmp |-> 0]
+      isT(v) == v.ty \in {"time", "timetz"}
+      TimeTzCmp(a, b) ==     \* instant of the day, then larger offset first
+        LET ia == SecOfDay(a) - a.off  ib == SecOfDay(b) - b.off
+        IN IF ia # ib THEN CmpInt(ia, ib) ELSE IF a.ns # b.ns THEN CmpInt(a.ns, b.ns) ELSE CmpInt(b.off, a.off)
+      viaCast(a, b, to) ==   \* compare after casting both to `to`
+        LET ca == Cast(a, to, useTZ, zone)  cb == Cast(b, to, useTZ, zone)
+        IN IF ~ca.ok THEN errR(ca.err) ELSE IF ~cb.ok THEN errR(cb.err)
+           ELSE IF to = "timetz" THEN res(TimeTzCmp(ca.v, cb.v))
+           ELSE res(CmpTriple(Instant(ca.v), Instant(cb.v)))
+  IN IF isT(l) # isT(r) THEN no                                \* a time of day against a date or timestamp
+     ELSE IF isT(l) THEN
+          (IF l.ty = "time" /\ r.ty = "time" THEN res(CmpTriple([day |-> 0, sod |-> SecOfDay(l), ns |-> l.ns], [day |-> 0, sod |-> SecOfDay(r), ns |-> r.ns]))
+           ELSE IF l.ty = "timetz" /\ r.ty = "timetz" THEN res(TimeTzCmp(l, r))
+           ELSE viaCast(l, r, "timetz"))
+     ELSE IF l.ty = "tstz" \/ r.ty = "tstz" THEN
+          (IF l.ty = "tstz" /\ r.ty = "tstz" THEN res(CmpTriple(Instant(l), Instant(r))) ELSE viaCast(l, r, "tstz"))
+     ELSE res(CmpTriple(FieldsTriple(l), FieldsTriple(r)))    \* date / timestamp: by fields
+
+(* --- the item methods ------------------------------------------------------ *)
+(* n = [k |-> "dt", op, hasArg, arg]; v the item.  [ok, v] | [ok |-> FALSE, err] *)
+TargetOf(op) ==
+  CASE op = "date" -> "date" [] op = "time" -> "time" [] op = "time_tz" -> "timetz"
+    [] op = "timestamp" -> "ts" [] op = "timestamp_tz" -> "tstz" [] OTHER -> "any"
+DTMethod(n, v, useTZ, zone) ==
+  IF v.t # "str" THEN CErr("verbose")
+  ELSE IF n.op = "datetime" /\ n.hasArg THEN CErr("hard")              \* .datetime(template) is not supported
+  ELSE LET p0 == IF n.hasArg /\ n.op \notin {"datetime", "date"} THEN n.arg ELSE [k |-> "none"]
+           pInt == IF p0.k # "num" THEN -1
+                   ELSE IF ~BNFitsInt32(p0.v.n) THEN 7                 \* beyond int32: an error the properties do not classify
+                   ELSE IF BNCmp(p0.v.n, BN(6)) > 0 THEN 6             \* capped at 6
+                   ELSE BNToInt(p0.v.n)
+       IN IF pInt = 7 THEN CErr("opaque")
+          ELSE LET r == ParseISO(v.s, pInt)
+               IN IF r.ok = "opaque" THEN CErr("opaque")
+                  ELSE IF r.ok = "n" THEN CErr("verbose")
+                  ELSE IF n.op = "datetime" THEN COk(r.v)
+                  ELSE Cast(r.v, TargetOf(n.op), useTZ, zone)
 =============================================================================
